@@ -93,7 +93,7 @@ func allScenarios(tier string) []*Scenario {
 			// D6 immediate modes
 			for i, cfg := range [][3]int{{0, 0, 1}, {3, 0, 0}, {0, 2, 1}} {
 				ss.add(Scenario{Name: fmt.Sprintf("D6-immediate%d/%s", i, tag), Signal: sig, S: uint32(cfg[0]), M: uint32(cfg[1]), Timeout: time.Duration(cfg[2]) * T,
-					Early: early, SinkFail: true,
+					Early: early, SinkFail: i != 2,
 					Callers: []CallerSpec{{Label: "A", Reqs: []Shape{simple(sig, "A", 3)}}, {Label: "B", Reqs: []Shape{simple(sig, "B", 1)}}}})
 			}
 		}
@@ -118,9 +118,333 @@ func allScenarios(tier string) []*Scenario {
 		ss.add(Scenario{Name: fmt.Sprintf("D7-cancel-split/k%d", k), Signal: "traces", S: 4, M: 4, Timeout: T, K: k,
 			Callers: []CallerSpec{{Label: "A", Reqs: []Shape{simple("traces", "A", 3)}}, {Label: "B", Cancellable: true, Reqs: []Shape{simple("traces", "B", 3)}}}})
 	}
+	// A's request spans two batches, the second shared with B; A may leave with a response unconsumed
+	ss.add(Scenario{Name: "D7-cancel-spanning", Signal: "traces", S: 4, M: 4, Timeout: T,
+		Callers: []CallerSpec{{Label: "A", Cancellable: true, Reqs: []Shape{simple("traces", "A", 6)}}, {Label: "B", Reqs: []Shape{simple("traces", "B", 2)}}}})
 	ss.add(Scenario{Name: "D7-cancel-early", Signal: "traces", S: 4, Timeout: T, Early: true,
 		Callers: []CallerSpec{{Label: "A", Cancellable: true, Reqs: []Shape{simple("traces", "A", 2)}}, {Label: "B", Reqs: []Shape{simple("traces", "B", 2)}}}})
 	ss.add(Scenario{Name: "D7-cancel-one-split", Signal: "traces", S: 2, M: 2, Timeout: T, SinkFail: true,
 		Callers: []CallerSpec{{Label: "A", Cancellable: true, Reqs: []Shape{simple("traces", "A", 4)}}}})
+	addTenants(ss, thorough)
+	addContexts(ss, thorough)
+	addTiming(ss, thorough)
+	addSplitLayer(ss, thorough)
+	addSeqLayer(ss, thorough)
+	// K2: max_concurrency=2 with three batches in flight
+	for _, early := range []bool{false, true} {
+		if !early && !thorough {
+			continue
+		}
+		ss.add(Scenario{Name: "K2-three-batches/er" + bools(early), TB: 2, Signal: "traces", S: 1, Timeout: T, K: 2, Early: early, SinkFail: false,
+			Callers: []CallerSpec{{Label: "A", Reqs: []Shape{simple("traces", "A", 1)}}, {Label: "B", Reqs: []Shape{simple("traces", "B", 1)}}, {Label: "C", Reqs: []Shape{simple("traces", "C", 1)}}}})
+	}
 	return ss.list
+}
+
+func md(kv ...string) map[string][]string {
+	m := map[string][]string{}
+	for i := 0; i+1 < len(kv); i += 2 {
+		m[kv[i]] = append(m[kv[i]], kv[i+1])
+	}
+	return m
+}
+
+// D8: tenants and the cardinality limit
+func addTenants(ss *scenarioSet, thorough bool) {
+	one := func(who string, n int) []Shape { return []Shape{simple("traces", who, n)} }
+	keys := []string{"Tenant"}
+	// race for the last free slot: two new combinations, limit 1
+	ss.add(Scenario{Name: "D8-limit1-race", Signal: "traces", S: 2, Timeout: T, Keys: keys, Limit: 1, SinkFail: false,
+		Callers: []CallerSpec{{Label: "A", Reqs: one("A", 1), Metadata: md("tenant", "x")}, {Label: "B", Reqs: one("B", 1), Metadata: md("TENANT", "y")}}})
+	// three combinations (single, other, multi-valued) racing for two slots
+	ss.add(Scenario{Name: "D8-limit2-race3", QB: 1, TB: 2, Signal: "traces", S: 0, Timeout: 0, Early: true, Keys: keys, Limit: 2,
+		Callers: []CallerSpec{{Label: "A", Reqs: one("A", 1), Metadata: md("tenant", "x")}, {Label: "B", Reqs: one("B", 1), Metadata: md("tenant", "y")},
+			{Label: "C", Reqs: one("C", 1), Metadata: md("tenant", "x", "tenant", "y")}}})
+	// same combination twice + a different one: merge only equals (limit 2 is enough)
+	ss.add(Scenario{Name: "D8-merge-equal", QB: 1, TB: 2, Signal: "traces", S: 2, Timeout: T, Early: true, Keys: keys, Limit: 2,
+		Callers: []CallerSpec{{Label: "A", Reqs: one("A", 1), Metadata: md("tenant", "x")}, {Label: "B", Reqs: one("B", 1), Metadata: md("Tenant", "x")},
+			{Label: "C", Reqs: one("C", 1), Metadata: md("tenant", "y")}}})
+	// empty value vs absent vs unrelated key are distinct combinations; unlimited
+	ss.add(Scenario{Name: "D8-empty-vs-absent", QB: 1, TB: 2, Signal: "traces", S: 2, Timeout: T, Early: true, Keys: keys, Limit: 0,
+		Callers: []CallerSpec{{Label: "A", Reqs: one("A", 1), Metadata: md("tenant", "")}, {Label: "B", Reqs: one("B", 1), Metadata: md("other", "x")},
+			{Label: "C", Reqs: one("C", 1)}}})
+	// two keys, swapped values must not be confused
+	ss.add(Scenario{Name: "D8-two-keys", QB: 1, TB: 2, Signal: "traces", S: 2, Timeout: T, Early: true, Keys: []string{"B", "a"}, Limit: 2,
+		Callers: []CallerSpec{{Label: "A", Reqs: one("A", 1), Metadata: md("a", "x", "b", "y")}, {Label: "B", Reqs: one("B", 1), Metadata: md("a", "y", "b", "x")},
+			{Label: "C", Reqs: one("C", 1), Metadata: md("A", "x", "B", "y")}}})
+	// a refused caller retries after the slot race; second request of an admitted tenant still works
+	ss.add(Scenario{Name: "D8-limit1-two-requests", Signal: "traces", S: 1, Timeout: T, Keys: keys, Limit: 1,
+		Callers: []CallerSpec{{Label: "A", Reqs: []Shape{simple("traces", "A", 1), simple("traces", "A2", 1)}, Metadata: md("tenant", "x")},
+			{Label: "B", Reqs: one("B", 1), Metadata: md("tenant", "y")}}})
+	if thorough {
+		ss.add(Scenario{Name: "D8-limit2-race3-k1", TB: 2, Signal: "traces", S: 1, Timeout: T, Keys: keys, Limit: 2, K: 1,
+			Callers: []CallerSpec{{Label: "A", Reqs: one("A", 1), Metadata: md("tenant", "x")}, {Label: "B", Reqs: one("B", 1), Metadata: md("tenant", "y")},
+				{Label: "C", Reqs: one("C", 1), Metadata: md("tenant", "z")}}})
+	}
+}
+
+// D9: caller contexts
+func addContexts(ss *scenarioSet, thorough bool) {
+	one := func(who string, n int) []Shape { return []Shape{simple("traces", who, n)} }
+	base := Scenario{Signal: "traces", S: 4, Timeout: T, Tracing: true, SinkHonoursCtx: true}
+	mk := func(name string, mod func(*Scenario)) {
+		s := base
+		s.Name = name
+		mod(&s)
+		ss.add(s)
+	}
+	mk("D9-two/2+2", func(s *Scenario) {
+		s.Callers = []CallerSpec{{Label: "A", Cancellable: true, Reqs: one("A", 2)}, {Label: "B", Cancellable: true, Reqs: one("B", 2)}}
+	})
+	mk("D9-three/1+1+2", func(s *Scenario) {
+		s.QB, s.TB = 1, 2
+		s.Callers = []CallerSpec{{Label: "A", Reqs: one("A", 1)}, {Label: "B", Reqs: one("B", 1)}, {Label: "C", Cancellable: true, Reqs: one("C", 2)}}
+	})
+	mk("D9-three-shared/XXY", func(s *Scenario) {
+		s.QB, s.TB = 1, 2
+		s.Callers = []CallerSpec{{Label: "A", Cancellable: true, Reqs: one("A", 1)}, {Label: "B", ShareCtx: 1, Reqs: one("B", 1)}, {Label: "C", Reqs: one("C", 2)}}
+	})
+	mk("D9-single/4", func(s *Scenario) {
+		s.Callers = []CallerSpec{{Label: "A", Cancellable: true, Reqs: one("A", 4)}}
+	})
+	mk("D9-shared/2+2", func(s *Scenario) {
+		s.Callers = []CallerSpec{{Label: "A", Cancellable: true, Reqs: one("A", 2)}, {Label: "B", ShareCtx: 1, Reqs: one("B", 2)}}
+	})
+	mk("D9-partial/3+3", func(s *Scenario) {
+		s.M = 4
+		s.Callers = []CallerSpec{{Label: "A", Reqs: one("A", 3)}, {Label: "B", Cancellable: true, Reqs: one("B", 3)}}
+	})
+	mk("D9-deadline/2+2", func(s *Scenario) {
+		s.ShutdownAt = 5 * T
+		s.Callers = []CallerSpec{{Label: "A", Deadline: T / 2, Reqs: one("A", 2)}, {Label: "B", ArriveAt: 3 * T / 4, Reqs: one("B", 2)}}
+	})
+	// metadata keys: the shard (and its export context) is created by A's request;
+	// a later batch merges B and C (same tenant, different request contexts)
+	mk("D9-keys/2|1+1", func(s *Scenario) {
+		s.QB, s.TB = 1, 2
+		s.S = 2
+		s.Early = true
+		s.Keys = []string{"tenant"}
+		s.Callers = []CallerSpec{{Label: "A", CtxOnly: true, Metadata: md("tenant", "x"), Reqs: one("A", 2)},
+			{Label: "B", Metadata: md("tenant", "x"), Reqs: one("B", 1)}, {Label: "C", Metadata: md("tenant", "x"), Reqs: one("C", 1)}}
+	})
+	if thorough {
+		mk("D9-three-cancel-any/1+1+2", func(s *Scenario) {
+			s.TB = 2
+			s.Callers = []CallerSpec{{Label: "A", Cancellable: true, Reqs: one("A", 1)}, {Label: "B", Cancellable: true, Reqs: one("B", 1)}, {Label: "C", Cancellable: true, Reqs: one("C", 2)}}
+		})
+		mk("D9-two-early/2+2", func(s *Scenario) {
+			s.Early = true
+			s.Callers = []CallerSpec{{Label: "A", Cancellable: true, Reqs: one("A", 2)}, {Label: "B", Reqs: one("B", 2)}}
+		})
+	}
+}
+
+// T9: size limits and flush deadlines under a quiescent virtual clock
+func addTiming(ss *scenarioSet, thorough bool) {
+	cfgs := [][3]int{{0, 0, 1}, {0, 3, 1}, {3, 0, 0}, {3, 3, 1}, {3, 5, 1}, {2, 0, 1}, {4, 4, 0}}
+	sizes := []int{1, 2, 3, 5}
+	if thorough {
+		sizes = []int{1, 2, 3, 5, 7}
+	}
+	grid := []time.Duration{0, T / 2, T, 3 * T / 2}
+	for ci, cfg := range cfgs {
+		pack := Scenario{Name: fmt.Sprintf("T9-timing-%s/cfg%d-S%d-M%d-T%d", tierTag(thorough), ci, cfg[0], cfg[1], cfg[2])}
+		addSeq := func(ns []int, ts []time.Duration) {
+			var callers []CallerSpec
+			name := pack.Name + "/"
+			for i := range ns {
+				lbl := string(rune('A' + i))
+				callers = append(callers, CallerSpec{Label: lbl, ArriveAt: ts[i], Reqs: []Shape{simple("traces", lbl, ns[i])}})
+				name += fmt.Sprintf("%d@%d,", ns[i], ts[i]/(T/2))
+			}
+			sub := Scenario{Name: name, Signal: "traces", S: uint32(cfg[0]), M: uint32(cfg[1]), Timeout: time.Duration(cfg[2]) * T,
+				ShutdownAt: 6 * T, Callers: callers, NumCPU: 1}
+			pack.Pack = append(pack.Pack, &sub)
+		}
+		for _, a := range sizes {
+			for _, ta := range grid {
+				addSeq([]int{a}, []time.Duration{ta})
+			}
+		}
+		for _, a := range sizes {
+			for _, b := range sizes {
+				for i, ta := range grid {
+					for _, tb := range grid[i:] {
+						addSeq([]int{a, b}, []time.Duration{ta, tb})
+					}
+				}
+			}
+		}
+		if thorough {
+			small := []int{1, 2, 3}
+			for _, a := range small {
+				for _, b := range small {
+					for _, c := range small {
+						for i, ta := range grid {
+							for j, tb := range grid[i:] {
+								for _, tc := range grid[i+j:] {
+									addSeq([]int{a, b, c}, []time.Duration{ta, tb, tc})
+								}
+							}
+						}
+					}
+				}
+			}
+		}
+		const chunk = 45
+		for off := 0; off < len(pack.Pack); off += chunk {
+			end := off + chunk
+			if end > len(pack.Pack) {
+				end = len(pack.Pack)
+			}
+			p := pack
+			p.Name = fmt.Sprintf("%s/part%d", pack.Name, off/chunk)
+			p.Pack = pack.Pack[off:end]
+			p.Bound = 1
+			p.TB = 2
+			ss.add(p)
+		}
+	}
+}
+
+// SPLIT: sequential exhaustive layer for the split functions through the
+// public API: every small request shape x every send_batch_max_size.
+var metricLists [][]int
+
+func addSplitLayer(ss *scenarioSet, thorough bool) {
+	maxRes0, maxItems0 := 2, 2
+	if thorough {
+		maxRes0, maxItems0 = 3, 3
+	}
+	for _, sig := range []string{"traces", "logs", "metrics"} {
+		maxRes, maxItems := maxRes0, maxItems0
+		if sig == "metrics" {
+			maxRes = 1 // metric lists make each scope 20+ ways already; two scopes under one resource
+		}
+		var shapes []Shape
+		// scopes per resource: 1..2, items per scope: 0..maxItems
+		var scopeOpts [][]int // item counts per scope list
+		if sig == "metrics" {
+			// a scope is an index into metricLists (lists of points per metric)
+			metricLists = nil
+			top := 3
+			if thorough {
+				top = 5
+			}
+			for a := 0; a <= top; a++ {
+				metricLists = append(metricLists, []int{a})
+			}
+			for a := 0; a <= 3; a++ {
+				for b := 0; b <= 3; b++ {
+					metricLists = append(metricLists, []int{a, b})
+				}
+			}
+			maxItems = len(metricLists) - 1
+		}
+		for a := 0; a <= maxItems; a++ {
+			scopeOpts = append(scopeOpts, []int{a})
+			for b := 0; b <= maxItems; b++ {
+				scopeOpts = append(scopeOpts, []int{a, b})
+			}
+		}
+		var rec func(prefix [][]int, depth int)
+		rec = func(prefix [][]int, depth int) {
+			if len(prefix) > 0 {
+				var sh Shape
+				tot := 0
+				mt := 0
+				for ri, scs := range prefix {
+					r := ResShape{Key: fmt.Sprintf("r%d", ri)}
+					for si, n := range scs {
+						key := fmt.Sprintf("s%d%d", ri, si)
+						if sig == "metrics" {
+							scs := ScopeShape{Key: key}
+							// n encodes the metric list of this scope: see metricLists
+							for mi, pts := range metricLists[n] {
+								scs.Metrics = append(scs.Metrics, MetricShape{Key: fmt.Sprintf("%s%c", key, 'a'+mi), Type: metricTypes[mt%5], Points: pts})
+								mt++
+								tot += pts
+							}
+							r.Scopes = append(r.Scopes, scs)
+							continue
+						} else {
+							r.Scopes = append(r.Scopes, ScopeShape{Key: key, Items: n})
+						}
+						tot += n
+					}
+					sh.Res = append(sh.Res, r)
+				}
+				if tot > 0 {
+					shapes = append(shapes, sh)
+				}
+			}
+			if depth == maxRes {
+				return
+			}
+			for _, o := range scopeOpts {
+				rec(append(append([][]int{}, prefix...), o), depth+1)
+			}
+		}
+		rec(nil, 0)
+		const per = 400
+		for off := 0; off < len(shapes); off += per {
+			end := off + per
+			if end > len(shapes) {
+				end = len(shapes)
+			}
+			pack := Scenario{Name: fmt.Sprintf("SPLIT-%s-%s/%d", sig, tierTag(thorough), off/per), Bound: 0}
+			for i, shp := range shapes[off:end] {
+				tot := shp.Count()
+				for m := 1; m <= tot; m++ {
+					sub := Scenario{Name: fmt.Sprintf("%s/shape%d/M%d", pack.Name, off+i, m), Signal: sig, S: 0, M: uint32(m), Timeout: 0, Early: true, NumCPU: 1, K: 1,
+						Callers: []CallerSpec{{Label: "A", Reqs: []Shape{shp}}}}
+					pack.Pack = append(pack.Pack, &sub)
+				}
+			}
+			pack.Bound = 0
+			pack.ZeroBound = true
+			ss.add(pack)
+		}
+	}
+}
+
+// SEQ: one caller, two or three sequential requests, every (sizes, S, M)
+// combination around the boundaries count==size and count==max.
+func addSeqLayer(ss *scenarioSet, thorough bool) {
+	maxN := 4
+	if thorough {
+		maxN = 6
+	}
+	for _, sig := range []string{"traces", "logs", "metrics"} {
+		pack := Scenario{Name: "SEQ-" + sig + "-" + tierTag(thorough), ZeroBound: true}
+		for m := 1; m <= maxN; m++ {
+			for _, sz := range []int{0, m} {
+				for a := 1; a <= maxN; a++ {
+					for b := 1; b <= maxN; b++ {
+						reqs := []Shape{simple(sig, "A", a), simple(sig, "B", b)}
+						name := fmt.Sprintf("%s/S%d-M%d/%d,%d", pack.Name, sz, m, a, b)
+						if thorough && a <= 3 && b <= 3 {
+							for c := 1; c <= 3; c++ {
+								sub := Scenario{Name: fmt.Sprintf("%s,%d", name, c), Signal: sig, S: uint32(sz), M: uint32(m), Timeout: T, NumCPU: 1, K: 1,
+									Callers: []CallerSpec{{Label: "A", Reqs: append(append([]Shape{}, reqs...), simple(sig, "C", c))}}}
+								pack.Pack = append(pack.Pack, &sub)
+							}
+						}
+						sub := Scenario{Name: name, Signal: sig, S: uint32(sz), M: uint32(m), Timeout: T, NumCPU: 1, K: 1,
+							Callers: []CallerSpec{{Label: "A", Reqs: reqs}}}
+						pack.Pack = append(pack.Pack, &sub)
+					}
+				}
+			}
+		}
+		ss.add(pack)
+	}
+}
+
+func tierTag(thorough bool) string {
+	if thorough {
+		return "t"
+	}
+	return "q"
 }
